@@ -2,8 +2,13 @@ package auth
 
 import (
 	"net/http"
+	"net/url"
 	"strings"
 )
+
+type urlT = url.URL
+
+var urlParse = url.Parse
 
 func contains(s, sub string) bool { return strings.Contains(s, sub) }
 
@@ -15,3 +20,11 @@ func VerifValidSignature(uri, sig, ts, secret string) bool { return validSignatu
 
 // VerifValidRedirectURI exposes the domain check likewise.
 func VerifValidRedirectURI(uri string, roots []string) bool { return validRedirectURI(uri, roots) }
+
+func mustParse(s string) *urlT {
+	u, err := urlParse(s)
+	if err != nil {
+		panic(err)
+	}
+	return u
+}
